@@ -853,8 +853,8 @@ func (fc *fileCtx) visitCall(n *ast.CallExpr, d int) {
 func (fc *fileCtx) rewriteGo(n *ast.GoStmt, d int) {
 	call := n.Call
 	nargs := len(call.Args)
-	if call.Ellipsis.IsValid() || nargs > 3 {
-		fc.unsupported(n.Pos(), "go statement with variadic call or more than 3 arguments")
+	if call.Ellipsis.IsValid() || nargs > 8 {
+		fc.unsupported(n.Pos(), "go statement with variadic call or more than 8 arguments")
 		return
 	}
 	sig, _ := under(fc.typeOf(call.Fun)).(*types.Signature)
@@ -870,8 +870,8 @@ func (fc *fileCtx) rewriteGo(n *ast.GoStmt, d int) {
 	switch sig.Results().Len() {
 	case 0:
 	case 1:
-		if nargs > 2 {
-			fc.unsupported(n.Pos(), "go statement: function with result and more than 2 arguments")
+		if nargs > 4 {
+			fc.unsupported(n.Pos(), "go statement: function with result and more than 4 arguments")
 			return
 		}
 		name += "R"
